@@ -18,7 +18,7 @@ if ! git apply "$D/patch.diff" 2>/dev/null; then
 fi
 SUITE=$(go test -vet=off -count=1 ./... 2>&1 | grep -c -E "^(FAIL|---  *FAIL)")
 FIRED=""
-for p in C01 C02 C04 C05 C07 C08 C09 C10 C11 C12 C14 C15 C16 C17 C18 C19 C20; do
+for p in C01 C02 C03 C04 C05 C06 C07 C08 C09 C10 C11 C12 C13 C14 C15 C16 C17 C18 C19 C20; do
   OUT=$("${CMVERIFY:-/verif/.bin/cmverify}" -repo "$WT" -verif "$SV" -property $p -tier quick 2>&1); RC=$?
   if [ $RC -ne 0 ]; then FIRED="$FIRED\n  $p: $(echo "$OUT" | grep -E '^(VIOLATION|UNDECIDED):' | cut -c1-400 | tr '\n' '|')"; fi
 done
